@@ -89,6 +89,16 @@ func checkCompactValue(c uint32) error {
 	if w.Cmp(refWork(c)) != 0 {
 		return fmt.Errorf("CalcWork(%#08x) = %x, reference %x", c, w, refWork(c))
 	}
+	// the results belong to the caller (btcd's own callers scale a target in place): changing
+	// them must not change what the next call for the same compact value returns
+	got.Lsh(got, 2).Add(got, big.NewInt(12345))
+	w.Add(w, big.NewInt(1))
+	if again := blockchain.CompactToBig(c); again.Cmp(want) != 0 {
+		return fmt.Errorf("CompactToBig(%#08x) = %x on the second call (after the caller modified the first result), protocol value %x", c, again, want)
+	}
+	if again := blockchain.CalcWork(c); again.Cmp(refWork(c)) != 0 {
+		return fmt.Errorf("CalcWork(%#08x) = %x on the second call (after the caller modified the first result), reference %x", c, again, refWork(c))
+	}
 	return nil
 }
 
